@@ -77,6 +77,9 @@ func wrapperKind(t types.Type) string {
 	case "*math/big.Int":
 		return "ptr"
 	}
+	if typeKey(t) == "error" {
+		return "error"
+	}
 	if b, ok := t.Underlying().(*types.Basic); ok {
 		if b.Info()&types.IsInteger != 0 {
 			return "mint"
@@ -143,6 +146,8 @@ func (g *replayGen) compile(c CExpr) goExpr {
 				return goExpr{"zzmi64(r_" + c.Name + ")", "int"}
 			case "mbool":
 				return goExpr{"r_" + c.Name, "bool"}
+			case "error":
+				return goExpr{"r_" + c.Name, "err"}
 			case "":
 				return g.fail("result %s of unsupported type %s", c.Name, t)
 			}
@@ -207,6 +212,9 @@ func (g *replayGen) compile(c CExpr) goExpr {
 			neg := ""
 			if c.Op == "!=" {
 				neg = "!"
+			}
+			if a.kind == "err" || b.kind == "err" {
+				return goExpr{neg + "(" + a.s + " == " + b.s + ")", "bool"}
 			}
 			isPtr := func(k string) bool { return k == "ptr" || k == "nilptr" }
 			if isPtr(a.kind) || isPtr(b.kind) {
